@@ -322,6 +322,17 @@ func C05(c *Ctx) {
 			g.StateHelperExtern = nKept%6 == 0
 			return g.UsesState
 		},
+		ExtraInputs: func(g *gast.Grammar, r *rand.Rand) [][]byte {
+			if g.Rules[0].Name != "DeepS" {
+				return nil
+			}
+			var out [][]byte
+			for _, d := range []int{3, 12, 15, 16, 17, 20, 31, 32, 33, 40, 64, 65, 90} {
+				op := strings.Repeat("(", d)
+				out = append(out, []byte(op+"y"), []byte(op+"x"+strings.Repeat(")", d)), []byte(op+"yz"), []byte(op+"x"+strings.Repeat(")", d-1)+"y"))
+			}
+			return out
+		},
 	}
 	c.runKnownF22()
 	c.ModelCheck(cfg)
@@ -487,6 +498,13 @@ func c05Strata() []*gast.Grammar {
 		mk(r("S", gast.S(gast.Opt(gast.S(gast.St(1, mon.Spec{S: 1}), gast.AndE(gast.L("a")), gast.L("b"))), gast.St(2, mon.Spec{S: 2}), gast.AndE(gast.L("a")), obs(3), gast.Star(gast.Dot()), obs(4)))),
 		mk(r("S", gast.S(gast.Star(gast.S(gast.St(1, mon.Spec{S: 8}), gast.St(2, mon.Spec{S: 1}), gast.NotE(gast.L("c")), gast.L("a"), gast.L("b"))), gast.St(3, mon.Spec{S: 2}), gast.St(4, box), gast.NotE(gast.L("c")), obs(5),
 			gast.C(gast.S(gast.St(6, mon.Spec{S: 16 | 1}), gast.AndE(gast.Dot()), gast.L("z")), gast.S(gast.St(7, mon.Spec{S: 2}), gast.AndE(gast.Dot()), obs(8), gast.Star(gast.Dot()))), obs(9)))),
+		// deep nesting: a failure that travels up through many nested sequence/choice levels, then another
+		// descent that changes the state at every level and fails at the bottom, then an observer (a
+		// bounded store of recycled snapshots is exhausted by the depth alone) - see the deep inputs of C05
+		mk(r("DeepS", gast.S(gast.St(1, mon.Spec{S: 1 | 8}), gast.C(gast.Ref("P1"), gast.Ref("P2"), gast.Ref("Ob")), gast.NotE(gast.Dot()))),
+			r("P1", gast.C(gast.S(gast.L("("), gast.Ref("P1"), gast.L(")")), gast.L("x"))),
+			r("P2", gast.C(gast.S(gast.L("("), gast.St(2, mon.Spec{S: 1 | 4}), gast.Ref("P2")), gast.S(gast.L("y"), gast.L("z")))),
+			r("Ob", gast.S(gast.Star(gast.L("(")), gast.L("y"), obs(3)))),
 		// a state block in a recovery expression, the label thrown inside a choice alternative that holds no
 		// state block itself; the alternative fails after the recovery, the change is rolled back with it
 		mk(r("S", gast.S(gast.St(1, mon.Spec{S: 1}), gast.Rec(gast.C(gast.S(gast.L("l"), gast.Ref("I"), gast.L(";")), gast.S(gast.L("l"), gast.Star(cls("abx")))), gast.Ref("R"), "L1"), obs(2), gast.Star(gast.Dot()), obs(3))),
@@ -864,6 +882,11 @@ func c14Strata() []*gast.Grammar {
 			r("R", gast.C(act(gast.L("~"), 3), gast.Thr("L2")))),
 		// throw inside repetition and predicate
 		mk(r("S", gast.Rec(gast.S(gast.Star(gast.C(gast.L("a"), gast.S(gast.AndE(gast.L("b")), gast.Thr("L2")))), gast.NotE(gast.Thr("L1")), gast.Star(gast.Dot())), act(gast.L("b"), 1), "L1", "L2"))),
+		// operators listing three and four labels in orders that are neither sorted nor reversed; every
+		// label of the list is thrown somewhere below
+		mk(r("S", gast.S(gast.Star(gast.C(gast.Rec(gast.Ref("B"), act(gast.Cl(gast.Chars("xyz!")), 1), "L2", "L3", "L1"), gast.Rec(gast.S(gast.L("#"), gast.Ref("B")), act(gast.Cl(gast.Chars("xyz")), 2), "L3", "L1", "L2"),
+			gast.Rec(gast.S(gast.L("%"), gast.Ref("B")), act(gast.Cl(gast.Chars("xyz")), 3), "L2", "L4", "L1", "L3"))), gast.Star(gast.Dot()))),
+			r("B", gast.C(gast.L("a"), gast.S(gast.AndE(gast.L("x")), gast.Thr("L1")), gast.S(gast.AndE(gast.L("y")), gast.Thr("L2")), gast.S(gast.AndE(gast.L("z")), gast.Thr("L3")), gast.S(gast.AndE(gast.L("!")), gast.Thr("L4"))))),
 		// a throw in a rule of a reference cycle (V -> Es -> V), an operator for its label at the top and
 		// another one inside the cycle whose guarded expression reaches the throw only through the other
 		// rule of the cycle: the innermost operator in force handles it, whichever was written first
@@ -896,7 +919,7 @@ func C17(c *Ctx) {
 		"oracle = the model decoding an invalid byte as a one-byte U+FFFD that never equals EOF: value, consumed prefix, block trace (text = original bytes, byte offsets), the set of positions of 'invalid encoding' errors (= invalid bytes the parse advanced onto; none when allowed) and the whole error list. " +
 		"distinct_nontrivial = distinct (grammar, input, mode) where the parse advanced onto >=1 invalid byte")
 	p := pegProfile()
-	p.Alphabets = [][]rune{[]rune("a�b"), []rune("ab"), []rune("a�\n"), []rune("é�x")}
+	p.Alphabets = [][]rune{[]rune("a�b"), []rune("ab"), []rune("a�\n"), []rune("é�x"), []rune("ÿþ\u0080¿Ãa")}
 	p.W[gast.Any] = 9
 	p.W[gast.Action] = 12
 	p.PInverted = 30
@@ -943,6 +966,10 @@ func c17Strata() []*gast.Grammar {
 	return []*gast.Grammar{
 		mk(r("S", gast.A(gast.S(gast.Star(gast.C(gast.L("�"), gast.Cl(gast.Chars("a�")), gast.A(gast.Dot(), 2, mon.Spec{R: 2}))), gast.NotE(gast.Dot())), 1, mon.Spec{}))),
 		mk(r("S", gast.S(gast.L("a�b"), gast.Star(gast.Cl(&gast.ClassSpec{Chars: []rune("�"), Inverted: true})), gast.Star(gast.Dot())))),
+		// classes whose members are the code points U+0080..U+00FF: an invalid byte is U+FFFD, never the
+		// code point that happens to equal its value
+		mk(r("S", gast.S(gast.Star(gast.C(gast.A(gast.Cl(&gast.ClassSpec{Ranges: [][2]rune{{0x80, 0xff}}}), 1, mon.Spec{R: 2}), gast.A(gast.Cl(&gast.ClassSpec{Chars: []rune("é\u0080ÿ"), Inverted: true}), 2, mon.Spec{R: 2}), gast.Dot())), gast.NotE(gast.Dot())))),
+		mk(r("S", gast.S(gast.Star(gast.C(gast.Cl(&gast.ClassSpec{Chars: []rune("Ã¿þ")}), gast.L("ÿ"), gast.A(gast.Cl(&gast.ClassSpec{Chars: []rune("a"), Inverted: true}), 1, mon.Spec{}))), gast.Star(gast.Dot())))),
 		// damaged / binary input of some length: every invalid byte the parse advances onto is reported,
 		// the first as well as the three-thousandth (rule names Garbage*: see the extra inputs of C17)
 		mk(r("GarbageLinear", gast.S(gast.Star(gast.C(gast.Plus(gast.Cl(&gast.ClassSpec{Ranges: [][2]rune{{'a', 'z'}}})), gast.Dot())), gast.NotE(gast.Dot())))),
